@@ -116,11 +116,18 @@ def ref_sctp(st):
 
 def ref_fields(stack, pkt, st):
     """Reference field list and payload for a packet built by packets.py for the given parser configuration."""
-    if stack in ('IPv6-UDP-CoAP', 'IPv4-UDP-CoAP') or (stack in ('IPv6', 'IPv4') and 'options' in st):
+    if 'raw' not in st and (stack in ('IPv6-UDP-CoAP', 'IPv4-UDP-CoAP') or (stack in ('IPv6', 'IPv4') and 'options' in st)):
         ip = ref_ipv6(pkt) if '6' in stack else ref_ipv4(pkt)
         n = 40 if '6' in stack else 20
         c, pl = ref_coap(st)
         return ip + ref_udp(pkt[n:]) + c, pl
+    if 'raw' in st:
+        # UDP to a port that designates no next parser: the rest is payload
+        if stack in ('IPv6', 'IPv4'):
+            ip = ref_ipv6(pkt) if '6' in stack else ref_ipv4(pkt)
+            n = 40 if '6' in stack else 20
+            return ip + ref_udp(pkt[n:]), bs(st['raw'])
+        return ref_udp(pkt), bs(st['raw'])
     if stack in ('IPv6', 'IPv4'):
         ip = ref_ipv6(pkt) if '6' in stack else ref_ipv4(pkt)
         s, pl = ref_sctp(st)
